@@ -355,6 +355,8 @@ fn spawn_output_flusher(
             match stop_rx.recv_timeout(OUTPUT_FLUSH_INTERVAL) {
                 Err(RecvTimeoutError::Timeout) => {
                     flush_output_buffer(&stdout_buf, b"out", &response_tx, &base_msg);
+                    #[cfg(wilfred_garden_verif)]
+                    verif_yield("flusher-between");
                     flush_output_buffer(&stderr_buf, b"err", &response_tx, &base_msg);
                 }
                 // Stop requested (sender dropped); the caller does the
@@ -439,11 +441,15 @@ fn eval_code_in_namespace(
     let eval_result = eval_toplevel_exprs_then_stop(&items, env, session, Rc::clone(&namespace));
     let eval_msec = eval_start.elapsed().as_millis() as i64;
 
+    #[cfg(wilfred_garden_verif)]
+    verif_yield("eval-returned");
     // Stop the flusher and drain whatever printed since its last pass.
     drop(flush_stop_tx);
     let _ = flusher.join();
     flush_output_buffer(stdout_buf, b"out", response_tx, base_msg);
     flush_output_buffer(stderr_buf, b"err", response_tx, base_msg);
+    #[cfg(wilfred_garden_verif)]
+    verif_yield("drained");
 
     match eval_result {
         Ok(value) => {
@@ -849,8 +855,12 @@ fn session_worker(
     let mut env = Env::new(id_gen, vfs);
 
     while let Ok(req) = request_rx.recv() {
+        #[cfg(wilfred_garden_verif)]
+        verif_yield("dequeued");
         // Clear any stray interrupt set while the session was idle.
         interrupted.store(false, Ordering::SeqCst);
+        #[cfg(wilfred_garden_verif)]
+        verif_yield("flag-reset");
 
         let stdout_buf = Arc::new(Mutex::new(String::new()));
         let stderr_buf = Arc::new(Mutex::new(String::new()));
@@ -1215,6 +1225,8 @@ fn handle_message(conn: &mut Connection, request: &HashMap<Vec<u8>, Value>) {
             let session_id = dict_get(request, "session").and_then(as_str);
             match session_id.and_then(|s| conn.sessions.get(s)) {
                 Some(s) => {
+                    #[cfg(wilfred_garden_verif)]
+                    verif_yield("reader-interrupt");
                     s.interrupted.store(true, Ordering::SeqCst);
                     let mut msg = base;
                     msg.insert(b"status".to_vec(), Value::List(vec![bstr("done")]));
@@ -1290,6 +1302,40 @@ fn handle_message(conn: &mut Connection, request: &HashMap<Vec<u8>, Value>) {
             conn.send(Value::Dict(msg));
         }
     }
+}
+
+/// Verification hook: widen race windows by sleeping a pseudo-random
+/// 0..N ms at named points, derived from `GARDEN_VERIF_SCHED_SEED`
+/// (unset: no delay). Adds no events and changes no ordering by
+/// itself.
+#[cfg(wilfred_garden_verif)]
+fn verif_yield(point: &str) {
+    use std::sync::atomic::AtomicU64;
+    static CFG: std::sync::OnceLock<Option<(u64, u64)>> = std::sync::OnceLock::new();
+    static COUNTER: AtomicU64 = AtomicU64::new(0);
+    let Some((seed, max_ms)) = *CFG.get_or_init(|| {
+        let seed = std::env::var("GARDEN_VERIF_SCHED_SEED").ok()?.parse().ok()?;
+        let max_ms = std::env::var("GARDEN_VERIF_SCHED_MAX_MS")
+            .ok()
+            .and_then(|s| s.parse().ok())
+            .unwrap_or(30);
+        Some((seed, max_ms))
+    }) else {
+        return;
+    };
+    let n = COUNTER.fetch_add(1, Ordering::SeqCst);
+    let mut h: u64 = seed ^ 0x9e37_79b9_7f4a_7c15 ^ n.wrapping_mul(0xbf58_476d_1ce4_e5b9);
+    for b in point.bytes() {
+        h = (h ^ b as u64).wrapping_mul(0x1000_0000_01b3);
+    }
+    h ^= h >> 29;
+    h = h.wrapping_mul(0x94d0_49bb_1331_11eb);
+    h ^= h >> 32;
+    // Half of the visits do not sleep at all.
+    if h & 1 == 0 || max_ms == 0 {
+        return;
+    }
+    thread::sleep(Duration::from_millis((h >> 1) % (max_ms + 1)));
 }
 
 /// Writer thread: pulls responses off the channel and writes them to
